@@ -33,7 +33,7 @@ REQUIRED_BRANCHES = ['conv_inside', 'conv_knot', 'conv_above', 'conv_below_error
                      'hist_conv_after_error', 'hist_conv_after_flux', 'hist_conv_after_both', 'hist_conv_after_apertures',
                      'hist_conv_repeat_interp', 'hist_sed_after_flux', 'hist_sed_var_after_flux',
                      'conv_knot_other_unit', 'sed_knot_other_unit', 'var_knot_other_unit', 'conv_empty_request',
-                     'sed_empty_request', 'var_single_filter']
+                     'sed_empty_request', 'var_single_filter', 'conv_flux_err_units_differ', 'sed_flux_other_unit']
 ASSUMPTIONS = ['IEEE rounding is not modelled: values are compared with a rounding budget of 1e-9 relative + 1e-12 x the '
                'largest tabulated magnitude of the row (linear interpolation between very different values cancels)',
                'unit conversion is not modelled: requests given in another unit than the table are sent to the model after '
@@ -99,6 +99,24 @@ def pick_kinds(rng, n, allow_below):
     return ks
 
 
+FLUX_UNITS = ['mJy', 'Jy', 'uJy']
+
+
+def gen_flux_units(rng, differ=False):
+    """the table's flux and error arrays carry independent (convertible) units; the numbers generated are the
+    numbers stored in those units, and every result is compared in the unit of the array it came from"""
+    if differ:
+        fu = rng.choice(FLUX_UNITS)
+        return dict(flux_unit=fu, err_unit=rng.choice([x for x in FLUX_UNITS if x != fu]))
+    if rng.random() < 0.55:
+        return dict(flux_unit='mJy', err_unit='mJy')
+    return dict(flux_unit=rng.choice(FLUX_UNITS), err_unit=rng.choice(FLUX_UNITS))
+
+
+def funit(case, key='flux_unit'):
+    return u.Unit(case.get(key, 'mJy'))
+
+
 def gen_conv(rng, directed=None):
     n_ap = rng.randint(1, 8)
     tu = rng.choice(['au', 'au', 'au', 'pc', 'cm', 'm', 'km'])
@@ -110,7 +128,7 @@ def gen_conv(rng, directed=None):
     if directed == 'conv_inside':
         n_ap = max(n_ap, 2); ru = tu; kinds = ['inside'] * nreq
     elif directed == 'conv_knot':
-        n_ap = max(n_ap, 2); ru = tu; kinds = ['first', 'last', 'knot']
+        n_ap = max(n_ap, 3); ru = tu; kinds = ['first', 'last', 'knot']
     elif directed == 'conv_above':
         n_ap = max(n_ap, 2); ru = tu; kinds = ['above', 'inside', 'above']
     elif directed == 'conv_below':
@@ -128,6 +146,8 @@ def gen_conv(rng, directed=None):
         n_ap = max(n_ap, 2); ru = other(tu); kinds = ['first', 'last', 'first', 'inside', 'last']
     elif directed == 'conv_empty':
         n_ap = max(n_ap, 2); kinds = []
+    elif directed == 'conv_units_differ':
+        n_ap = max(n_ap, 2); ru = tu; kinds = ['first', 'inside', 'knot', 'above']
     nm = rng.randint(1, 6)
     aps = gen_aps(rng, n_ap, tu)
     if kinds is None:
@@ -145,7 +165,7 @@ def gen_conv(rng, directed=None):
         flux.append(sorted(row) if mono else row)
     err = [[float('%.3g' % (f * rng.uniform(0, 0.3))) for f in row] for row in flux]
     return dict(kind='conv', aps=aps, no_aps=no_aps, tab_unit=tu, req_unit=ru, req=req, names=names,
-                wav=nice(rng, 0.3, 500., 3), flux=flux, err=err)
+                wav=nice(rng, 0.3, 500., 3), flux=flux, err=err, **gen_flux_units(rng, directed == 'conv_units_differ'))
 
 
 def gen_sed(rng, directed=None):
@@ -176,6 +196,8 @@ def gen_sed(rng, directed=None):
         ru = rng.choice([x for x in UNIT_NAMES if x != tu])
     elif directed == 'sed_empty':
         n_ap = max(n_ap, 2); kinds = []
+    elif directed == 'sed_units_differ':
+        n_ap = max(n_ap, 2)
     nw = rng.randint(1, 6)
     aps = gen_aps(rng, n_ap, tu)
     if kinds is None:
@@ -187,7 +209,8 @@ def gen_sed(rng, directed=None):
     if rng.random() < 0.5:
         wavs = wavs[::-1]
     flux = [[nice(rng, 1e-3, 1e3, 4) for _ in wavs] for _ in range(n_ap)]
-    return dict(kind='sed', aps=aps, no_aps=no_aps, tab_unit=tu, req_unit=ru, req=req, wavs=wavs, flux=flux)
+    return dict(kind='sed', aps=aps, no_aps=no_aps, tab_unit=tu, req_unit=ru, req=req, wavs=wavs, flux=flux,
+                **gen_flux_units(rng, directed == 'sed_units_differ'))
 
 
 def gen_var(rng, directed=None, tu=None):
@@ -236,7 +259,7 @@ def gen_var(rng, directed=None, tu=None):
         sw = sw[::-1]
     flux = [[nice(rng, 1e-3, 1e3, 4) for _ in sw] for _ in range(n_ap)]
     return dict(kind='var', aps=aps, aps_stored=stored, var_unit=tu, no_aps=(n_ap == 1 and rng.random() < 0.5),
-                wavs=sw, flux=flux, fw=fw, fa=fa)
+                wavs=sw, flux=flux, fw=fw, fa=fa, **gen_flux_units(rng, directed == 'var_units_differ'))
 
 
 DIRECTED = [('conv', d) for d in ['conv_inside', 'conv_knot', 'conv_above', 'conv_below', 'conv_single', 'conv_none',
@@ -245,7 +268,8 @@ DIRECTED = [('conv', d) for d in ['conv_inside', 'conv_knot', 'conv_above', 'con
                                  'sed_bare', 'sed_quantity']] + \
            [('var', d) for d in ['var_at_filter', 'var_above', 'var_below', 'var_single', 'var_single_filter'] +
             ['var_on_min'] * 8 + ['var_knot_other_unit'] * 8] + \
-           [('conv', d) for d in ['conv_knot_other_unit'] * 12 + ['conv_empty']] + \
+           [('conv', d) for d in ['conv_knot_other_unit'] * 12 + ['conv_empty'] + ['conv_units_differ'] * 4] + \
+           [('sed', 'sed_units_differ'), ('var', 'var_units_differ')] + \
            [('sed', d) for d in ['sed_knot_other_unit'] * 12 + ['sed_empty']] + \
            [('hist', d) for d in ['h_error', 'h_flux', 'h_both', 'h_aps', 'h_aps_only', 'h_repeat', 'h_long'] * 2] + \
            [('shist', d) for d in ['sh_interp', 'sh_var', 'sh_mixed']]
@@ -324,8 +348,8 @@ def make_conv(case):
     if not case['no_aps']:
         c.apertures = np.array(case['aps'], dtype=float) * UNITS[case['tab_unit']]
     c.central_wavelength = case['wav'] * u.micron
-    c.flux = np.array(case['flux'], dtype=float).reshape(nm, -1) * u.mJy
-    c.error = np.array(case['err'], dtype=float).reshape(nm, -1) * u.mJy
+    c.flux = np.array(case['flux'], dtype=float).reshape(nm, -1) * funit(case)
+    c.error = np.array(case['err'], dtype=float).reshape(nm, -1) * funit(case, 'err_unit')
     return c
 
 
@@ -401,8 +425,18 @@ def run_conv(case, c=None):
         return False, 'model names / order changed: %r vs %r' % (list(out.model_names), names), branches, True
     if float(out.central_wavelength.to(u.micron).value) != float(wav):
         return False, 'central wavelength changed: %r vs %r' % (out.central_wavelength, float(wav)), branches, True
-    for impl, model, what2, tabv in ((out.flux.to(u.mJy).value, m_flux, 'flux', case['flux']),
-                                     (out.error.to(u.mJy).value, m_err, 'error', case['err'])):
+    if case.get('flux_unit', 'mJy') != case.get('err_unit', 'mJy') and not single:
+        branches.add('conv_flux_err_units_differ')
+    try:
+        got_flux = out.flux.to(funit(case)).value
+        got_err = out.error.to(funit(case, 'err_unit')).value
+    except Exception as e:      # noqa: BLE001
+        return False, '%s: returned flux / error units %r / %r cannot be converted to the table\'s %s / %s (%s)' % (
+            what, getattr(out.flux, 'unit', None), getattr(out.error, 'unit', None), case.get('flux_unit', 'mJy'),
+            case.get('err_unit', 'mJy'), e), branches, True
+    what = what + ', flux in %s, error in %s' % (case.get('flux_unit', 'mJy'), case.get('err_unit', 'mJy'))
+    for impl, model, what2, tabv in ((got_flux, m_flux, 'flux', case['flux']),
+                                     (got_err, m_err, 'error', case['err'])):
         d = cmp_matrix(impl, model, what2, [max(abs(v) for v in row) for row in tabv])
         if d:
             return False, '%s: %s' % (what, d), branches, True
@@ -415,7 +449,9 @@ def run_conv(case, c=None):
 
 def make_sed(case):
     aps = None if case['no_aps'] else case['aps']
-    s = pk.make_sed('m', case['wavs'], case['flux'], np.zeros_like(np.array(case['flux'], dtype=float)), apertures_au=aps)
+    s = pk.make_sed('m', case['wavs'], case['flux'], np.zeros_like(np.array(case['flux'], dtype=float)), apertures_au=aps,
+                    unit=funit(case))
+    s.error = np.zeros(s.flux.shape) * funit(case, 'err_unit')
     if aps is not None and case.get('var_unit', 'au') != 'au':
         s.apertures = np.array(case['aps_stored'], dtype=float) * UNITS[case['var_unit']]
     elif aps is not None and case.get('tab_unit', 'au') != 'au':
@@ -443,6 +479,8 @@ def run_sed(case, s=None):
         req_au = [float(v) for v in passed.to(u.au).value]
         branches.add('sed_quantity')
     single = len(case['aps']) == 1
+    if case.get('flux_unit', 'mJy') != 'mJy' or case.get('err_unit', 'mJy') != case.get('flux_unit', 'mJy'):
+        branches.add('sed_flux_other_unit')
     if not case['req']:
         branches.add('sed_empty_request')
     if single:
@@ -630,7 +668,8 @@ def gen_shist(rng, directed=None):
 
 def run_hist(case):
     branches = set()
-    state = {k: case[k] for k in ('aps', 'no_aps', 'tab_unit', 'req_unit', 'names', 'wav', 'flux', 'err')}
+    state = {k: case[k] for k in ('aps', 'no_aps', 'tab_unit', 'req_unit', 'names', 'wav', 'flux', 'err', 'flux_unit', 'err_unit')
+             if k in case}
     c = make_conv(state)
     tu = UNITS[state['tab_unit']]
     nm = len(state['names'])
@@ -658,10 +697,10 @@ def run_hist(case):
                 c.apertures = np.array(st['aps'], dtype=float) * tu
             if op in ('flux', 'both', 'aps'):
                 state['flux'] = st['flux']
-                c.flux = np.array(st['flux'], dtype=float).reshape(nm, -1) * u.mJy
+                c.flux = np.array(st['flux'], dtype=float).reshape(nm, -1) * funit(state)
             if op in ('error', 'both', 'aps'):
                 state['err'] = st['err']
-                c.error = np.array(st['err'], dtype=float).reshape(nm, -1) * u.mJy
+                c.error = np.array(st['err'], dtype=float).reshape(nm, -1) * funit(state, 'err_unit')
             last_assign = {'aps': 'apertures', 'aps_only': 'apertures'}.get(op, op)
         done.append(op)
     return True, '', branches, None
@@ -669,7 +708,7 @@ def run_hist(case):
 
 def run_shist(case):
     branches = set()
-    state = {k: case[k] for k in ('aps', 'no_aps', 'wavs', 'flux', 'fw')}
+    state = {k: case[k] for k in ('aps', 'no_aps', 'wavs', 'flux', 'fw', 'flux_unit', 'err_unit') if k in case}
     state['tab_unit'] = 'au'
     s = make_sed(state)
     done = []
@@ -678,7 +717,7 @@ def run_shist(case):
         op = st['op']
         if op == 'sflux':
             state = dict(state, flux=st['flux'])
-            s.flux = np.array(st['flux'], dtype=float).reshape(len(st['flux']), -1) * u.mJy
+            s.flux = np.array(st['flux'], dtype=float).reshape(len(st['flux']), -1) * funit(state)
             after_flux = True
         else:
             if op == 'sinterp':
@@ -759,8 +798,8 @@ def direct_check(case):
             c.model_names = np.array(case['names'])
             c.apertures = np.array(case['aps'], dtype=float) * tu
             c.central_wavelength = case['wav'] * u.micron
-            c.flux = np.array(case['flux'], dtype=float).reshape(nm, -1) * u.mJy
-            c.error = np.array(case['err'], dtype=float).reshape(nm, -1) * u.mJy
+            c.flux = np.array(case['flux'], dtype=float).reshape(nm, -1) * funit(case)
+            c.error = np.array(case['err'], dtype=float).reshape(nm, -1) * funit(case, 'err_unit')
             req_q = (np.array(case['req'], dtype=float) * tu).to(ru)
             req_t = [float(v) for v in req_q.to(tu).value]
             below = any(x < case['aps'][0] for x in req_t)
@@ -776,7 +815,7 @@ def direct_check(case):
             for i in range(nm):
                 for j, x in enumerate(req_t):
                     e = direct_formula(case['aps'], case['flux'][i], x)
-                    g = float(out.flux[i, j].to(u.mJy).value)
+                    g = float(out.flux[i, j].to(funit(case)).value)
                     if abs(g - e) > 1e-9 * abs(e) + 1e-12 * max(abs(v) for v in case['flux'][i]):
                         return 'flux[%d][%d] = %r, formula %r (apertures %r, request %r)' % (i, j, g, e, case['aps'], x)
         elif case['kind'] == 'var' and len(case['aps']) >= 2:
